@@ -2,7 +2,9 @@
 C16 - positional record codecs (TLV, fixed-width) round-trip, refuse, and terminate.
 
 Lean: lean/N0Verif/Model/Tlv.lean, Model/Fwf.lean, Proofs/Tlv.lean, Proofs/Fwf.lean, Props/C16.lean
-B streams: tlv.int, tlv.parse (generated / mutated / soup / exhaustive), tlv.gen, fwf.parse, fwf.gen, fwf.load
+      Gen/TlvPy.lean is regenerated from the source of parse_tlv by translate() (harness/translate_py_tlv.py);
+      C16_generated_step_eq / _cond_eq / _parse_eq prove it equal to Tlv.step / Tlv.loop, C16_tlv_terminates_generated transfers termination.
+B streams: tlv.int, tlv.parse (generated / mutated / soup / exhaustive), tlvpy.parse (the translated generator), tlv.gen, fwf.parse, fwf.gen, fwf.load
 C evaluators: tlv_roundtrip (round trip + refusal), tlv_tiling (termination + tiling on arbitrary input),
               fwf_roundtrip, fwf_every_row_once
 """
@@ -12,13 +14,19 @@ import shutil
 import tempfile
 
 from harness import core
+from harness import translate_py_tlv as trtlv
 from harness.core import enc_str, enc_val
 
 MANIFEST = dict(
     category="proof",
     technique="Lean 4 theorems over hand-written models of parse_tlv / generate_tlv / parse_fwf_row / generate_fwf_row / "
-              "the row loop of load_fwf + differential correspondence with the implementation",
-    text="Proved in Lean (unbounded in input length, number of entries, columns and lines; 17 theorems in Props/C16.lean): "
+              "the row loop of load_fwf + Python-subset-to-Lean translator of parse_tlv with machine-checked equality to the model "
+              "+ differential correspondence with the implementation",
+    text="Second tie for parse_tlv: harness/translate_py_tlv.py re-translates the generator (while loop with an offset, tuple assignments, slices, int()) "
+         "into Lean on every run (Gen/TlvPy.lean) and Lean re-checks C16_generated_step_eq (translated loop body = Tlv.step seen through the yielded triple and the next offset), "
+         "C16_generated_cond_eq, C16_generated_parse_eq (translated generator = Tlv.loop for every fuel: same triples, same way of ending) and C16_tlv_terminates_generated; "
+         "a change of parse_tlv changes the generated text and either keeps these equalities or fails a proof obligation (code outside the translated subset: broken tie). "
+         "Proved in Lean (unbounded in input length, number of entries, columns and lines; 17 theorems in Props/C16.lean): "
          "C16_tlv_tiles - for EVERY function used as int() that rejects the empty string, every input string and all field widths, "
          "parse_tlv (with fix C16-a: negative length -> ValueError) ends normally or with ValueError, never runs out of fuel, the "
          "triplets' cells concatenate to the consumed prefix (to the whole input when it ends normally), each triplet starts inside the input exactly where the "
@@ -41,6 +49,38 @@ MANIFEST = dict(
 )
 
 GOOD_LP = "0 \t\n\x0b\x0c\r\x85\xa0\u1680\u2000\u2001\u2002\u2003\u2004\u2005\u2006\u2007\u2008\u2009\u200a\u2028\u2029\u202f\u205f\u3000"  # '0' or a character int() strips
+
+# ---------------------------------------------------------------------------
+# translator hook (A.1): regenerate Gen/TlvPy.lean from the source under test
+# ---------------------------------------------------------------------------
+def translate(ctx):
+    info = {"file": "lean/N0Verif/Gen/TlvPy.lean", "source": trtlv.SRC, "translator": "harness/translate_py_tlv.py"}
+    try:
+        legend, changed, differs = trtlv.regenerate(core.REPO)
+        info.update(names=legend, regenerated_text_changed=changed, differs_from_unchanged_code=differs)
+        if differs:
+            rc, out = core.sh(["lake", "build", "N0Verif.Gen.TlvPy"], cwd=core.LEAN_DIR)
+            if rc != 0:
+                raise trtlv.TranslateError("Lean rejects the generated definitions: " + out[-600:])
+    except trtlv.TranslateError as e:
+        # the code left the translated subset: the tie is broken, not the infrastructure; keep the text of the unchanged code
+        ctx.tie_broken.append({"tie": "translator harness/translate_py_tlv.py (Python subset -> Lean)", "detail": str(e)})
+        trtlv.restore_baseline()
+        info.update(error=str(e), restored="text generated from the unchanged code")
+    ctx.extra["translated"] = info
+
+
+def tlvpy_parse_canon(c):
+    """what a consumer of the generator sees: yielded triples and how the iteration ended (no frame inspection)"""
+    trips, status = run_tlv(c["s"], c["tl"], c["ll"])
+    parts = ["ok", str(len(trips))]
+    for tag, ln, val, _off in trips:
+        if not isinstance(tag, str) or not isinstance(val, str) or not isinstance(ln, int):
+            return "err BadTriplet"
+        parts += [enc_str(tag), str(ln), enc_str(val)]
+    parts.append(status)
+    return " ".join(parts)
+
 
 # ---------------------------------------------------------------------------
 # implementation access
@@ -620,10 +660,29 @@ def shrink_failure(evaluator, case):
     return core.shrink(case, lambda c: _valid(evaluator, c) and fn(c) is not None and not bad_len_padding(c))
 
 
-CANON = {"tlv.int": int_canon, "tlv.parse": tlv_parse_canon, "tlv.gen": tlv_gen_canon, "fwf.parse": fwf_parse_canon, "fwf.gen": fwf_gen_canon, "fwf.load": fwf_load_canon}
+CANON = {"tlv.int": int_canon, "tlv.parse": tlv_parse_canon, "tlvpy.parse": tlvpy_parse_canon, "tlv.gen": tlv_gen_canon, "fwf.parse": fwf_parse_canon, "fwf.gen": fwf_gen_canon, "fwf.load": fwf_load_canon}
 
 
 def replay(rp):
+    kind = rp.get("kind")
+    if kind == "tie":
+        try:
+            trtlv.translate_source(open(os.path.join(core.REPO, trtlv.SRC), encoding="utf-8").read())
+        except trtlv.TranslateError as e:
+            print("translator:", e)
+            return 1
+        print("translator: the source is inside the translated subset")
+        return 0
+    if kind == "proof":
+        try:
+            trtlv.regenerate(core.REPO)
+        except trtlv.TranslateError as e:
+            print("translator:", e)
+            return 1
+        rc, out = core.sh(["lake", "build", "N0Verif.Props.C16"], cwd=core.LEAN_DIR)
+        print(out[-3000:])
+        print("result:", "the theorems check" if rc == 0 else "a proof obligation fails")
+        return 1 if rc != 0 else 0
     c = rp["case"]
     if "evaluator" in rp:
         bad = EVALUATORS[rp["evaluator"]](c)
@@ -655,6 +714,15 @@ def run(ctx):
 
 def _run(ctx):
     parse_tlv, gen_tlv = impl()[0], impl()[1]
+    if ctx.proof is not None and getattr(ctx.proof, "failed", None):
+        import re
+
+        log = ctx.proof.build_log or ""
+        ctx.extra["proof_step"] = {
+            "modules_with_errors": sorted(set(re.findall(r"^- (N0Verif\.\S+)", log, re.M))),
+            "first_errors": [l[:240] for l in log.split("\n") if l.startswith("error: N0Verif")][:6],
+            "generated_text_differs_from_unchanged_code": ctx.extra.get("translated", {}).get("differs_from_unchanged_code"),
+        }
     n = ctx.budget(3000, 40000)
 
     # ---- B0: int()
@@ -691,6 +759,9 @@ def _run(ctx):
     for _ in range(n):
         pcases.append({"s": gen_soup(rng), "tl": rng.choice([0, 0, 1, 1, 2, 3, 4]), "ll": rng.choice([0, 1, 1, 2, 2, 3, 4])})
     ctx.correspond("tlv.parse", pcases, tlv_parse_line, tlv_parse_canon, nontrivial=lambda c: len(c["s"]) > c["tl"] + c["ll"])
+    # the generator translated from the source (Gen/TlvPy.lean)
+    ctx.correspond("tlvpy.parse", pcases, lambda c: "tlvpy.parse %d %d %s" % (c["tl"], c["ll"], enc_str(c["s"])), tlvpy_parse_canon,
+                   nontrivial=lambda c: len(c["s"]) > c["tl"] + c["ll"])
 
     # ---- exhaustive small scope for the parser (B and C)
     ex = []
